@@ -61,6 +61,7 @@ type sched struct {
 	Prefill int     `json:"prefill"`
 	Policy  int     `json:"reader_policy"` // 0 keep all open, 1 close one step later, 2 close at once
 	Mmap    bool    `json:"mmap_each_step"`
+	OOO     bool    `json:"ooo,omitempty"`   // real tsdb.DB with an out-of-order window, committed OOO data overlapping every test series' head chunk, queriers through DB.Querier / DB.ChunkQuerier
 	Kinds   []int   `json:"kinds,omitempty"` // per series 0..NSeries: 0 float, 1 histogram, 2 float histogram, 3 NHCB, 4 float NHCB
 	Shape   string  `json:"shape"`
 	Corpus  string  `json:"corpus,omitempty"`
@@ -123,12 +124,16 @@ type appState struct {
 
 type readerState struct {
 	key     int
+	aux     []int // keys of further isolation states the same querier opened (DB.Querier with OOO data opens two)
 	q       storage.Querier
+	cq      storage.ChunkQuerier
 	born    int             // action index at creation
 	closedB map[uint64]bool // appendIDs closed before creation
 }
 
 type runner struct {
+	db      *tsdb.DB               // nil unless sc.OOO
+	oooVals map[int]map[int64]bool // per series: values of samples that did not go to the in-order chunks
 	h       *tsdb.Head
 	sc      *sched
 	items   []string
@@ -138,12 +143,12 @@ type runner struct {
 	action  int
 	reads   []readRec
 	// statistics
-	midCommitReads, cuts, mmaps, commitRejects, appendRejects, maxRing, trims, recodes, histResets int
-	lastCount                                                                                      map[int]uint32
-	lastSeries                                                                                     map[int]string
-	keepOldest                                                                                     int
-	lastHist                                                                                       map[int][3]int
-	lastTotal                                                                                      map[int]int
+	midCommitReads, cuts, mmaps, commitRejects, appendRejects, maxRing, trims, recodes, histResets, oooFiltered int
+	lastCount                                                                                                   map[int]uint32
+	lastSeries                                                                                                  map[int]string
+	keepOldest                                                                                                  int
+	lastHist                                                                                                    map[int][3]int
+	lastTotal                                                                                                   map[int]int
 }
 
 type readRec struct {
@@ -321,29 +326,115 @@ func readAll(q storage.Querier) map[int][]pair {
 	return res
 }
 
+func (r *runner) isoReaders() int {
+	_, _, _, lows, _ := r.h.VerifC05Iso()
+	return len(lows)
+}
+
 func (r *runner) newReader() {
-	q, err := tsdb.NewBlockQuerier(tsdb.NewRangeHead(r.h, math.MinInt64, math.MaxInt64), math.MinInt64, math.MaxInt64)
+	rs := &readerState{key: r.nextKey, born: r.action, closedB: map[uint64]bool{}}
+	r.nextKey++
+	before := r.isoReaders()
+	var err error
+	switch {
+	case r.db != nil && rs.key%2 == 1:
+		rs.cq, err = r.db.ChunkQuerier(math.MinInt64, math.MaxInt64)
+	case r.db != nil:
+		rs.q, err = r.db.Querier(math.MinInt64, math.MaxInt64)
+	default:
+		rs.q, err = tsdb.NewBlockQuerier(tsdb.NewRangeHead(r.h, math.MinInt64, math.MaxInt64), math.MinInt64, math.MaxInt64)
+	}
 	if err != nil {
 		panic(err)
 	}
-	rs := &readerState{key: r.nextKey, q: q, born: r.action, closedB: map[uint64]bool{}}
-	r.nextKey++
 	for k := range r.closed {
 		rs.closedB[k] = true
 	}
 	r.readers = append(r.readers, rs)
+	// DB.Querier over OOO data opens the range head's isolation state and then the one of the
+	// head-and-OOO chunk reader (the one reads go through): the newest is the querier's own
+	n := r.isoReaders() - before
+	for j := 1; j < n; j++ {
+		rs.aux = append(rs.aux, 100000*j+rs.key)
+		r.emit(fmt.Sprintf("IEv (ENewReader %d)", 100000*j+rs.key))
+	}
+	if n < 1 {
+		panic("querier without isolation state")
+	}
 	r.emit(fmt.Sprintf("IEv (ENewReader %d)", rs.key))
 }
 
 func (r *runner) closeReader(rs *readerState) {
-	rs.q.Close()
+	if rs.cq != nil {
+		rs.cq.Close()
+	} else {
+		rs.q.Close()
+	}
 	r.emit(fmt.Sprintf("IEv (ECloseReader %d)", rs.key))
+	for j := len(rs.aux) - 1; j >= 0; j-- {
+		r.emit(fmt.Sprintf("IEv (ECloseReader %d)", rs.aux[j]))
+	}
 	for i, x := range r.readers {
 		if x == rs {
 			r.readers = append(r.readers[:i], r.readers[i+1:]...)
 			break
 		}
 	}
+}
+
+// readAllChunks reads every series through a ChunkQuerier: the samples of all its chunks.
+func readAllChunks(q storage.ChunkQuerier) map[int][]pair {
+	res := map[int][]pair{}
+	ss := q.Select(context.Background(), true, nil, labels.MustNewMatcher(labels.MatchEqual, "__name__", "s"))
+	for ss.Next() {
+		s := ss.At()
+		var idx int
+		fmt.Sscan(s.Labels().Get("i"), &idx)
+		var l []pair
+		ci := s.Iterator(nil)
+		for ci.Next() {
+			it := ci.At().Chunk.Iterator(nil)
+			for vt := it.Next(); vt != chunkenc.ValNone; vt = it.Next() {
+				switch vt {
+				case chunkenc.ValFloat:
+					t, v := it.At()
+					l = append(l, pair{t, int64(v)})
+				case chunkenc.ValHistogram:
+					t, h := it.AtHistogram(nil)
+					l = append(l, pair{t, int64(h.Sum)})
+				case chunkenc.ValFloatHistogram:
+					t, h := it.AtFloatHistogram(nil)
+					l = append(l, pair{t, int64(h.Sum)})
+				}
+			}
+			if it.Err() != nil {
+				panic(it.Err())
+			}
+		}
+		if ci.Err() != nil {
+			panic(ci.Err())
+		}
+		res[idx] = l
+	}
+	if ss.Err() != nil {
+		panic(ss.Err())
+	}
+	return res
+}
+
+// inOrderOnly drops the samples that were ingested out of order (they carry no appendID and
+// are outside the property, which speaks of in-order samples).
+func (r *runner) inOrderOnly(series int, l []pair) []pair {
+	if len(r.oooVals[series]) == 0 {
+		return l
+	}
+	var o []pair
+	for _, p := range l {
+		if !r.oooVals[series][p.V] {
+			o = append(o, p)
+		}
+	}
+	return o
 }
 
 // readEveryone: every open querier reads (when many are open and all is not set: the oldest
@@ -355,10 +446,21 @@ func (r *runner) readEveryone(midCommit, all bool) {
 		if !all && len(r.readers) > r.keepOldest+1 && j >= r.keepOldest && !newest {
 			continue
 		}
-		got := readAll(rs.q)
+		var got map[int][]pair
+		if rs.cq != nil {
+			got = readAllChunks(rs.cq)
+		} else {
+			got = readAll(rs.q)
+		}
 		for i := 0; i <= r.sc.NSeries; i++ {
 			if i == 0 && !newest && !all {
 				continue
+			}
+			if n := len(got[i]); n > 0 {
+				got[i] = r.inOrderOnly(i, got[i])
+				if len(got[i]) < n {
+					r.oooFiltered++
+				}
 			}
 			r.emit(fmt.Sprintf("IRead %d %d %s", rs.key, i, gPairs(got[i])))
 			r.reads = append(r.reads, readRec{rs, i, got[i]})
@@ -413,10 +515,18 @@ func (r *runner) applyEvent(a *appState, s smp, k int, hdBefore int) {
 	if cut {
 		r.cuts++
 	}
+	tot := r.totalSamples(s.Series)
+	if tot == r.lastTotal[s.Series] {
+		// not appended to the in-order chunks: rejected, dropped as duplicate, or (with an OOO
+		// window) inserted out of order
+		if r.oooVals[s.Series] == nil {
+			r.oooVals[s.Series] = map[int64]bool{}
+		}
+		r.oooVals[s.Series][int64(a.id)*1000+int64(k)] = true
+	}
 	if kind := r.sc.kind(s.Series); kind > 0 {
 		// what the layout code did to the open chunk (measured on the chunk list: a sample that
 		// extends the previous sample's layout and opens no chunk went through the recode path)
-		tot := r.totalSamples(s.Series)
 		if tot > r.lastTotal[s.Series] {
 			prev, had := r.lastHist[s.Series]
 			fam := [2]int{0, 0}
@@ -434,8 +544,8 @@ func (r *runner) applyEvent(a *appState, s smp, k int, hdBefore int) {
 			}
 			r.lastHist[s.Series] = [3]int{histBuckets(s.H), fam[0], fam[1]}
 		}
-		r.lastTotal[s.Series] = tot
 	}
+	r.lastTotal[s.Series] = tot
 	r.emit(fmt.Sprintf("IEv (EApply %s %d %s %s %s)", gallina.ZU(a.id), s.Series, gallina.Z(s.T), gallina.Z(int64(a.id)*1000+int64(k)), gallina.Bool(cut)))
 	r.noteRing(s.Series)
 }
@@ -598,33 +708,79 @@ func runSchedule(root string, sc *sched, keepOldest int) outcome {
 		panic(err)
 	}
 	defer os.RemoveAll(dir)
-	opts := tsdb.DefaultHeadOptions()
-	opts.ChunkRange = 1_000_000_000
-	opts.ChunkDirRoot = dir
-	opts.SamplesPerChunk = sc.SPC
-	opts.StripeSize = 16
-	h, err := tsdb.NewHead(nil, nil, nil, nil, opts, nil)
-	if err != nil {
-		panic(err)
+	var h *tsdb.Head
+	var db *tsdb.DB
+	if sc.OOO {
+		// a real DB: out-of-order window open, WAL off, no compaction; queriers come from
+		// DB.Querier / DB.ChunkQuerier, which wrap the head querier in the head-and-OOO reader
+		// as soon as the query range overlaps out-of-order data
+		o := tsdb.DefaultOptions()
+		o.OutOfOrderTimeWindow = 1_000_000_000
+		o.MinBlockDuration = 1_000_000_000_000
+		o.MaxBlockDuration = 1_000_000_000_000
+		o.WALSegmentSize = -1
+		o.SamplesPerChunk = sc.SPC
+		o.StripeSize = 16
+		db, err = tsdb.Open(dir, nil, nil, o, nil)
+		if err != nil {
+			panic(err)
+		}
+		db.DisableCompactions()
+		defer db.Close()
+		h = db.Head()
+		if sc.Prefill < 2 {
+			sc.Prefill = 2
+		}
+	} else {
+		opts := tsdb.DefaultHeadOptions()
+		opts.ChunkRange = 1_000_000_000
+		opts.ChunkDirRoot = dir
+		opts.SamplesPerChunk = sc.SPC
+		opts.StripeSize = 16
+		h, err = tsdb.NewHead(nil, nil, nil, nil, opts, nil)
+		if err != nil {
+			panic(err)
+		}
+		defer h.Close()
+		if err := h.Init(0); err != nil {
+			panic(err)
+		}
 	}
-	defer h.Close()
-	if err := h.Init(0); err != nil {
-		panic(err)
-	}
-	r := &runner{h: h, sc: sc, closed: map[uint64]bool{}, lastCount: map[int]uint32{}, lastSeries: map[int]string{}, keepOldest: keepOldest, lastHist: map[int][3]int{}, lastTotal: map[int]int{}}
+	r := &runner{h: h, db: db, oooVals: map[int]map[int64]bool{}, sc: sc, closed: map[uint64]bool{}, lastCount: map[int]uint32{}, lastSeries: map[int]string{}, keepOldest: keepOldest, lastHist: map[int][3]int{}, lastTotal: map[int]int{}}
 
 	// set-up transaction (appendID 1): initialises the head's time range through the init
 	// appender; writes series 0 and, optionally, a prefix of every test series.
 	setup := []smp{{Series: 0, T: 1}}
 	for p := 0; p < sc.Prefill; p++ {
 		for i := 1; i <= sc.NSeries; i++ {
-			setup = append(setup, smp{Series: i, T: int64(2 + p)})
+			if sc.OOO {
+				setup = append(setup, smp{Series: i, T: int64(50 + 2*p)})
+			} else {
+				setup = append(setup, smp{Series: i, T: int64(2 + p)})
+			}
 		}
 	}
 	sa := r.newAppender(setup)
 	sa.ctl = &commitCtl{paused: make(chan string), resume: make(chan struct{}), done: make(chan error, 1)}
 	for !sa.finished {
 		r.advance(sa)
+	}
+	if sc.OOO {
+		// second set-up transaction (appendID 2): out-of-order samples at 10 and 51 for every
+		// test series; their OOO chunk [10,51] starts below and reaches into the in-order head
+		// chunk [50,...], so the two are merged into one composite chunk led by the OOO chunk
+		var oo []smp
+		for i := 1; i <= sc.NSeries; i++ {
+			oo = append(oo, smp{Series: i, T: 10}, smp{Series: i, T: 51})
+		}
+		oa := r.newAppender(oo)
+		oa.ctl = &commitCtl{paused: make(chan string), resume: make(chan struct{}), done: make(chan error, 1)}
+		for !oa.finished {
+			r.advance(oa)
+		}
+		if r.h.MinOOOTime() != 10 {
+			panic("out-of-order set-up data was not ingested out of order")
+		}
 	}
 	r.afterAction(nil)
 
@@ -886,6 +1042,12 @@ func main() {
 		if len(sc.Kinds) > 0 {
 			meta.Hit("histogram-series")
 		}
+		if sc.OOO {
+			meta.Hit("ooo-db-queriers")
+		}
+		if st.oooFiltered > 0 {
+			meta.Hit("reads-merging-ooo-data")
+		}
 		if st.recodes > 0 {
 			meta.Hit("histogram-chunk-recoded")
 		}
@@ -981,11 +1143,30 @@ func main() {
 		}
 	}
 
+	// ---- corpus: out-of-order data under the in-order head chunk. Real DB with an OOO window;
+	// every test series has committed OOO samples at 10 and 51 around its in-order prefix 50, 52;
+	// appender 0 applies its sample on series 1 and pauses before series 2; appender 1 commits
+	// both series behind it; Querier and ChunkQuerier from the DB after every step.
+	{
+		txns := []txn{{Samples: []smp{{Series: 1}, {Series: 2}}}, {Samples: []smp{{Series: 2}, {Series: 1}}}}
+		order := []token{{'N', 0}, {'S', 0}, {'N', 1}, {'S', 1}, {'S', 1}, {'S', 1}, {'S', 0}, {'S', 0}}
+		for _, v := range []struct {
+			pol, spc int
+			mmap     bool
+			kinds    []int
+		}{{1, 120, false, nil}, {0, 120, false, nil}, {2, 1, true, nil}, {1, 120, false, []int{0, 1, 2}}} {
+			t := cloneTxns(txns)
+			consistentTimes(t, order, v.kinds)
+			emit(&sched{Txns: t, Order: order, NSeries: 2, SPC: v.spc, Prefill: 2, Policy: v.pol, Mmap: v.mmap, Kinds: v.kinds, OOO: true, Corpus: "ooo-under-head-chunk-mid-commit"})
+		}
+	}
+
 	// ---- exhaustive: 2 appenders x 2 series x 1..2 samples, every interleaving
 	type variation struct {
 		policy, prefill, spc int
 		mmap, fixed          bool
 		rb                   int // -1 none, else the appender that rolls back
+		ooo                  bool
 		hist                 int // 0 floats only, 1 series 2 holds histograms, 2 series 1 float histograms + series 2 histograms
 	}
 	kindsOf := func(h int) []int {
@@ -1016,6 +1197,7 @@ func main() {
 		{2, 3, 1, true, true, -1, 2}, {1, 1, 1, false, false, 0, 0}, {2, 0, 1, true, false, 1, 1},
 		{0, 3, 1, true, false, -1, 3}, {1, 4, 1, true, false, -1, 2}, {2, 2, 120, false, true, 1, 0},
 	}
+	variations[0].ooo, variations[3].ooo, variations[6].ooo, variations[9].ooo = true, true, true, true
 	perSchedule := 1
 	if f.Tier == "thorough" {
 		perSchedule = 2
@@ -1083,7 +1265,7 @@ func main() {
 					} else {
 						consistentTimes(txns, ord, kindsOf(v.hist))
 					}
-					emit(&sched{Txns: txns, Order: ord, NSeries: 2, SPC: v.spc, Prefill: v.prefill, Policy: v.policy, Mmap: v.mmap, Kinds: kindsOf(v.hist)})
+					emit(&sched{Txns: txns, Order: ord, NSeries: 2, SPC: v.spc, Prefill: v.prefill, Policy: v.policy, Mmap: v.mmap, Kinds: kindsOf(v.hist), OOO: v.ooo})
 				}
 			})
 		}
@@ -1137,7 +1319,7 @@ func main() {
 		} else {
 			consistentTimes(txns, order, kinds)
 		}
-		emit(&sched{Txns: txns, Order: order, NSeries: ns, SPC: int(r.PickI64(1, 1, 2, 3, 120)), Prefill: r.Intn(7), Policy: r.Intn(3), Mmap: r.Chance(1, 3), Kinds: kinds})
+		emit(&sched{Txns: txns, Order: order, NSeries: ns, SPC: int(r.PickI64(1, 1, 2, 3, 120)), Prefill: r.Intn(7), Policy: r.Intn(3), Mmap: r.Chance(1, 3), Kinds: kinds, OOO: r.Chance(1, 3)})
 	}
 	cf.Flush()
 	meta.Notes = append(meta.Notes, "pause points used: c05.commit.start, c05.commitFloats.sample, c05.commitHistograms.sample, c05.commitFloatHistograms.sample (tsdb/head_append.go)")
